@@ -221,6 +221,16 @@ def run_unit(unit, rlimit=30, canary=False, extra=(), keep=True):
                 props = set(['C01']) | set(meta.get('safety_props') or [])
             elif it is not None:
                 props = set(items[it].get('props') or [])
+        if not props and it is not None:
+            # an item without properties of its own (a trait method declaration carries the contract its implementations
+            # are checked against): the properties of the items that define the same function
+            last = items[it]['item'].split('::')[-1].strip()
+            for other in items:
+                if other is not items[it] and other['item'].split('::')[-1].strip() == last:
+                    props |= set(other.get('props') or [])
+        if not props:
+            # never drop a semantic failure: it counts for every property that relies on this unit
+            props = set(['*'])
         clause = lines[pl - 1].strip()[:300] if pl else ''
         res['failures'].append({
             'unit': unit, 'kind': what, 'function': fn_name, 'item_index': it, 'props': sorted(props), 'safety': safety, 'tagged': bool(tags),
